@@ -272,13 +272,15 @@ impl SubscriptionActor {
 
         self.deleted = true;
 
+        // Unregister the subscription from push while the name is still ours: once the
+        // manager has let go of the name, a new subscription can be created under it and
+        // register itself for push, and we must not remove its entry.
+        self.push_registry.set(self.info.name.clone(), None);
+
         self.delegate.delete(&self.info.name);
         self.observer.notify_deleted();
         self.outstanding.clear();
         self.backlog.clear();
-
-        // Unregister the subscription from push.
-        self.push_registry.set(self.info.name.clone(), None);
 
         Ok(())
     }
